@@ -1,4 +1,5 @@
 import KoordVerif.Model.C08
+import KoordVerif.Model.C08Glue
 import KoordVerif.Proofs.C08ExtConc
 import KoordVerif.Generated.C08
 /-
@@ -52,5 +53,17 @@ theorem tie_conc_sections :
 
 theorem tie_cleanup_order :
     C08.cleanupOrder = ["cad", "flag"] ∧ C08.cleanupCond = "n.nodeMetric == nil && len(n.podInfos) == 0" := by decide
+
+/-- the priority bands of the glue model are the bands of apis/extension/priority.go: the band ends map to the
+class, their outer neighbours to none -/
+theorem tie_priority_bands :
+    classByPriority C08.PriorityProdValueMin = 1 ∧ classByPriority C08.PriorityProdValueMax = 1 ∧
+    classByPriority C08.PriorityMidValueMin = 2 ∧ classByPriority C08.PriorityMidValueMax = 2 ∧
+    classByPriority C08.PriorityBatchValueMin = 3 ∧ classByPriority C08.PriorityBatchValueMax = 3 ∧
+    classByPriority C08.PriorityFreeValueMin = 4 ∧ classByPriority C08.PriorityFreeValueMax = 4 ∧
+    classByPriority (C08.PriorityProdValueMax + 1) = 0 ∧ classByPriority (C08.PriorityProdValueMin - 1) = 0 ∧
+    classByPriority (C08.PriorityMidValueMax + 1) = 0 ∧ classByPriority (C08.PriorityMidValueMin - 1) = 0 ∧
+    classByPriority (C08.PriorityBatchValueMax + 1) = 0 ∧ classByPriority (C08.PriorityBatchValueMin - 1) = 0 ∧
+    classByPriority (C08.PriorityFreeValueMax + 1) = 0 ∧ classByPriority (C08.PriorityFreeValueMin - 1) = 0 := by decide
 
 end KoordVerif.C08
